@@ -176,3 +176,38 @@ func ShareOwnership() {
 		}
 	}
 }
+
+// ShareOwnershipNonParticipant: a configured peer that is not a participant of the running
+// generation gets no participant's share in the reply to its contribution.
+func ShareOwnershipNonParticipant() {
+	ctx := context.Background()
+	ids := []uint64{1, 2, 3, 1<<63 + 5}
+	c := newCluster(ctx, ids, 70*time.Second)
+	ri := vsym.Choose("replier", 3)
+	replier := c.nodes[ids[ri]]
+	parts := []*core.Endpoint{}
+	for k, id := range ids[:3] {
+		parts = append(parts, &core.Endpoint{ID: id, Name: fmt.Sprintf("signer-test%02d", k+1), Port: uint32(8881 + k)})
+	}
+	hc.Must(replier.proc.OnPrepare(ctx, ids[0], walletName+"/acc", passphrase, 2, parts))
+	outsider := ids[3]
+	share, vvec := consistentContribution(replier.id, 2)
+	req := &pb.ContributeRequest{Account: walletName + "/acc", Secret: share.Serialize(), VerificationVector: [][]byte{vvec[0].Serialize(), vvec[1].Serialize()}}
+	res, err := replier.handler.Contribute(c.callerCtx(ctx, peerName(ids, outsider)), req)
+	if err != nil {
+		vsym.Reach("outsider-refused")
+		return
+	}
+	vsym.Reach("outsider-answered")
+	var got bls.SecretKey
+	hc.Must(got.Deserialize(res.GetSecret()))
+	rv := make([]bls.PublicKey, len(res.GetVerificationVector()))
+	for k, b := range res.GetVerificationVector() {
+		hc.Must(rv[k].Deserialize(b))
+	}
+	// whatever the outsider receives, it is its own share (the polynomial at its own id) or nothing:
+	// never the polynomial evaluated at a participant's id
+	var own bls.PublicKey
+	hc.Must(own.Set(rv, blsID(outsider)))
+	vsym.Assert("O2-outsider-gets-nothing-or-its-own-share", vsym.Or(got.IsZero(), got.GetPublicKey().IsEqual(&own)))
+}
